@@ -200,6 +200,69 @@ fn judge_macro(c: &MacroCase, l: &mut Local) {
     l.sample(|| json!({"family": "macro", "program": msrc, "inlined": isrc}));
 }
 
+// ---- text inside the block that is not ASCII ----------------------------------------------------------------
+// The block is taken from the rule body as TEXT: strings and comments inside it may hold multi-byte characters, and the
+// block still ends at its own closing brace, however many blanks stand before it.
+
+const NA_LINES: [&str; 6] = ["str \"\u{e9}\u{2192}\", {n}", "str \"\u{fc}\", {n} ; \u{e9}\u{2192}\u{1f600}", "nop ;* \u{e9}\u{2192} *;", "nop", "str \"a\u{1f600}\", 2", ";* \u{e9}\u{e9}\u{e9}\u{e9} *; str \"z\", {n}"];
+const NA_CLOSINGS: [&str; 5] = ["\n    }", " }", "}", "  }", " ;* \u{2192}\u{2192} *; }"];
+const NA_ARGS: [&str; 3] = ["7", "G", "H - G"];
+
+fn judge_nonascii_macro(seq: &[usize], closing: usize, arg: usize, l: &mut Local) {
+    let close = NA_CLOSINGS[closing];
+    let last = NA_LINES[*seq.last().unwrap()];
+    if !close.starts_with('\n') && last.contains(" ; ") {
+        return; // a line comment would swallow the brace
+    }
+    let rules = "    nop => 0x00\n    str {s}, {n: u8} => s @ n\n";
+    let mut m = format!("#ruledef\n{{\n{}    m {{n}} => asm {{\n", rules);
+    let mut inl = format!("#ruledef\n{{\n{}}}\nG:\nnop\n", rules);
+    for (i, x) in seq.iter().enumerate() {
+        m += "        ";
+        m += NA_LINES[*x];
+        if i + 1 < seq.len() {
+            m += "\n";
+        }
+        inl += &NA_LINES[*x].replace("{n}", NA_ARGS[arg]);
+        inl += "\n";
+    }
+    m += close;
+    m += "\n}\nG:\nnop\n";
+    m += &format!("m {}\n", NA_ARGS[arg]);
+    m += "H:\n#d8 0xff\n";
+    inl += "H:\n#d8 0xff\n";
+    let opts = Opts::iters(10);
+    l.eval();
+    let mo = run::assemble_str(&m, &opts);
+    l.eval();
+    let io = run::assemble_str(&inl, &opts);
+    l.nontrivial(&m);
+    l.traces_validated += 1;
+    if !io.success() {
+        l.class("non-ascii-inlined-not-ok");
+        l.unspecified += 1;
+        return;
+    }
+    l.class("non-ascii-inlined-ok");
+    let bad = if mo.panicked.is_some() {
+        Some(("C17:panic", "panic in the macro program"))
+    } else if !mo.success() {
+        Some(("C17:macro-rejected-but-inlined-assembles", "the inlined block assembles but the macro call is rejected"))
+    } else if mo.bits != io.bits {
+        Some(("C17:macro-bits-differ-from-inlined", "the macro call assembles to other bits than the inlined block"))
+    } else {
+        None
+    };
+    if let Some((key, what)) = bad {
+        l.violation(Violation {
+            property: ID,
+            key: key.into(),
+            what: format!("{}: {}", what, m.replace('\n', " / ")),
+            case: json!({"family": "macro-non-ascii", "program": m, "inlined": inl, "expected": io.summary(), "observed": mo.summary()}),
+        });
+    }
+}
+
 // ---- value-dependent inner instructions: certificate by search (DESIGN §4 C17) -------------------------
 
 fn cascade_rules() -> Vec<RuleSrc> {
@@ -735,6 +798,19 @@ pub fn run(ctx: &Ctx) -> Report {
         }
         judge_typed_across(&seq, d[1] as usize, d[2] == 1, ta_budgets[d[3] as usize], l);
     }));
+    // non-ASCII text inside the block
+    {
+        let kn = NA_LINES.len() as u64;
+        let per = seq_count(kn, 2);
+        rep.absorb(par_run(per * NA_CLOSINGS.len() as u64 * NA_ARGS.len() as u64, |i, l| {
+            let d = decode(i, &[per, NA_CLOSINGS.len() as u64, NA_ARGS.len() as u64]);
+            let seq = seq_decode(d[0], kn, 2);
+            if seq.is_empty() {
+                return;
+            }
+            judge_nonascii_macro(&seq, d[1] as usize, d[2] as usize, l);
+        }));
+    }
     // functions
     let trees = fn_trees();
     let nt = trees.len() as u64;
@@ -751,7 +827,7 @@ pub fn run(ctx: &Ctx) -> Report {
     rep.extra("inner_forms", json!(nf));
     rep.extra("function_trees", json!(nt));
     rep.assumptions = vec!["arguments are substituted textually into asm blocks (the repository's expr_asm tests pin this); typed parameters may additionally reject an out-of-range argument at the call site".into(), "outer programs use a dot-local label only together with blocks that declare no label of their own, because an inlined block label would change the scope".into()];
-    for c in ["inlined-ok", "inlined-rejected", "macro-with-local-label-ok", "cascade-macro-ok", "typed-across-inlined-ok", "typed-across-inlined-rejected", "typed-across-fallback-ok", "function", "recursion-ok", "recursion-limit-error", "unbounded-recursion-error"] {
+    for c in ["inlined-ok", "inlined-rejected", "macro-with-local-label-ok", "cascade-macro-ok", "typed-across-inlined-ok", "typed-across-inlined-rejected", "typed-across-fallback-ok", "non-ascii-inlined-ok", "function", "recursion-ok", "recursion-limit-error", "unbounded-recursion-error"] {
         rep.require_class(c);
     }
     rep
